@@ -1,5 +1,6 @@
 //! anydb-mc — model-checking engines for the anydb properties (see /verif/DESIGN.md).
 
+mod codecx;
 mod importx;
 mod lazyx;
 mod rawx;
@@ -11,6 +12,9 @@ mod report;
 mod scratch;
 mod seqx;
 mod tap;
+
+#[global_allocator]
+static ALLOC: codecx::Counting = codecx::Counting;
 
 fn usage() -> ! {
     eprintln!("usage: anydb-mc <C01..C20> <quick|thorough> | anydb-mc replay <file>");
@@ -65,6 +69,14 @@ fn main() {
                 let mut run = report::Run::new("C15", tier, "lazyx");
                 lazyx::add(&mut run, &kf, tier);
                 run.cov("rule", serde_json::json!("every lazy vector built from every source content / mapping of the stated sizes; for each, every read API x all (from,to) pairs over 0..len+1 and usize::MAX x all subsets of six indices, compared with the defining formula evaluated on plain Vecs; a case is distinct by (kind, expected result)"));
+                run.finish()
+            }
+            "C17" => {
+                let kf = report::KnownFindings::load();
+                let mut run = report::Run::new("C17", tier, "codecx+vecx");
+                codecx::add(&mut run, &kf, tier);
+                vecx_run::add(&mut run, &kf, "C17", tier, if tier == "quick" { 20 } else { 600 });
+                run.cov("rule", serde_json::json!("boundary cross products of every field of every codec, all truncations and byte/length-field mutations of valid encodings, all slot-kind combinations of the regions file; each decode is one case, distinct by its input bytes"));
                 run.finish()
             }
             "C13" => {
